@@ -62,11 +62,16 @@ def full_name(printed):
   return scope, gc._REGISTRY.get_match(sel).selector
 
 
-def c07_operative(nma2: int, p1: int, s1: bool, ma1: int, mb1: int, second: int, s2: bool, ma2: int, mb2: int,
+REBIND = [None, ('1', 1, 'True', True), ('%mac', ('macro', 'mac'), '%mac2', ('macro', 'mac2')),
+          ('@vw.src()', ('ref', 'vw.src', True), '@s/vw.src()', ('ref', 's/vw.src', True)),
+          ('0', 0, 'False', False)]
+
+
+def c07_operative(rebind: int, nma2: int, p1: int, s1: bool, ma1: int, mb1: int, second: int, s2: bool, ma2: int, mb2: int,
                   broot: bool, vk: int, bscope: bool) -> bool:
   """
   pre: 0 <= p1 < 5 and 0 <= ma1 < 5 and 0 <= mb1 < 2 and 0 <= second < 3 and 0 <= ma2 < nma2 and 0 <= mb2 < 2
-  pre: 0 <= vk < 9
+  pre: 0 <= vk < 9 and 0 <= rebind < 5
   """
   p1 = rt.pick(p1, 5)
   s1 = rt.flag(s1)
@@ -79,6 +84,11 @@ def c07_operative(nma2: int, p1: int, s1: bool, ma1: int, mb1: int, second: int,
     s2, ma2, mb2 = False, 0, 0
   broot, bscope = rt.flag(broot), rt.flag(bscope)
   vk = rt.pick(vk, NVK) if broot else 0
+  # between two calls of the same probe the root binding is replaced by a DIFFERENT value that
+  # compares equal to the old one (1 / True, two macros, the same configurable under two scopes)
+  rebind = rt.pick(rebind, 5)
+  if rebind and not (second == 1 and broot and vk == 0 and not bscope):
+    rt.discard()
   with rt.native():
     world.fresh()
     probe1 = PROBES[p1]
@@ -91,12 +101,14 @@ def c07_operative(nma2: int, p1: int, s1: bool, ma1: int, mb1: int, second: int,
     first = PARAMS[probe1][0]
     sentinel = object()
     gin.constant('vwc.K', 31)
-    setup = ['mac = 17', 'vw.src.v = 9']
+    setup = ['mac = 17', 'mac2 = 17', 'vw.src.v = 9', 's/vw.src.v = 9']
     gin.parse_config('\n'.join(setup))
     bound = {}
     if broot and not (probe1 in ('allow_a',) and False):
       if VK[vk] == 'OBJECT':
         gin.bind_parameter(FULL[probe1] + '.' + first, sentinel)
+      elif rebind:
+        gin.parse_config('%s.%s = %s' % (FULL[probe1], first, REBIND[rebind][0]))
       else:
         gin.parse_config('%s.%s = %s' % (FULL[probe1], first, VK[vk]))
       bound[''] = vk
@@ -111,16 +123,18 @@ def c07_operative(nma2: int, p1: int, s1: bool, ma1: int, mb1: int, second: int,
           rt.discard()
     # ---- run the calls --------------------------------------------------------------------------
     logs = []
-    for c in calls:
+    for ci, c in enumerate(calls):
+      if ci == 1 and rebind:
+        gin.parse_config('%s.%s = %s' % (FULL[probe1], first, REBIND[rebind][2]))
       del world.LOG[:]
       call(*c)
       logs.append([(n, a, k) for (n, a, k, _) in world.LOG])
     text = gin.operative_config_str()
     # ---- reference model of the record --------------------------------------------------------------
     want = {}          # (scope, full selector) -> {param: canonical value}
-    uses_src, uses_mac = set(), False
+    uses_src, uses_mac, uses_mac2 = set(), False, False
     representable_only = True
-    for probe, scope, ma, mb in calls:
+    for ci, (probe, scope, ma, mb) in enumerate(calls):
       rec = want.setdefault((scope, FULL[probe]), {})
       if probe == 'Kmeth.meth':
         want.setdefault(('', 'vw.Kmeth'), {})      # the class was constructed (outside any scope)
@@ -134,6 +148,8 @@ def c07_operative(nma2: int, p1: int, s1: bool, ma1: int, mb1: int, second: int,
           which = bound['']
         if which == 'six':
           supplied[pfirst] = 6
+        elif which is not None and rebind:
+          supplied[pfirst] = REBIND[rebind][1 if ci == 0 else 3]
         elif which is not None:
           if VK[which] == 'OBJECT':
             supplied.pop(pfirst, None)
@@ -153,6 +169,10 @@ def c07_operative(nma2: int, p1: int, s1: bool, ma1: int, mb1: int, second: int,
       v = supplied.get(pfirst)
       if v == ('ref', 'vw.src', True):
         uses_src.add(scope)
+      if v == ('ref', 's/vw.src', True):
+        uses_src.add('s')
+      if v == ('macro', 'mac2'):
+        uses_mac2 = True
       if v == ('macro', 'mac'):
         uses_mac = True
       rec.update(supplied)
@@ -167,7 +187,8 @@ def c07_operative(nma2: int, p1: int, s1: bool, ma1: int, mb1: int, second: int,
     got = {}
     for (scope, sel), d in binds.items():
       if not next(iter(d)):          # macro definition
-        if not (uses_mac and (scope, sel, d['']) == ('', 'mac', 17)):
+        if not ((uses_mac and (scope, sel, d['']) == ('', 'mac', 17)) or
+                (uses_mac2 and (scope, sel, d['']) == ('', 'mac2', 17))):
           return rt.no('macro section %r' % ((scope, sel, d),))
         continue
       got[(scope, gc._REGISTRY.get_match(sel).selector)] = d
@@ -176,10 +197,12 @@ def c07_operative(nma2: int, p1: int, s1: bool, ma1: int, mb1: int, second: int,
     if 'vwc.K' in text.replace('%vwc.K', '') or 'gin.constant' in text:
       return rt.no('constant lookups must be omitted')
     want_nonempty = {k: d for k, d in shown.items() if d}
-    if got != want_nonempty:
+    from vf.spec import literal
+    if set(got) != set(want_nonempty) or not all(literal.same_value(got[k], want_nonempty[k]) for k in got):
       return rt.no('parameters %r != %r\n%s' % (got, want_nonempty, text))
     # ---- replay: clear, parse the text, repeat the calls ---------------------------------------------------
-    if representable_only:
+    # (the replay clause is about a fixed configuration: not applicable when the harness re-binds between calls)
+    if representable_only and not rebind:
       gin.clear_config()
       gin.parse_config(text)
       relogs = []
@@ -199,18 +222,20 @@ HARNESSES = {
     'c07_operative': dict(
         fn='c07_operative',
         anchors=['gin.config:gin_wrapper', 'gin.config:operative_config_str', 'gin.config:_config_str'],
-        smoke=[dict(nma2=5, p1=0, s1=True, ma1=0, mb1=1, second=1, s2=False, ma2=2, mb2=0, broot=True, vk=3, bscope=True),
-               dict(nma2=5, p1=1, s1=False, ma1=1, mb1=0, second=2, s2=True, ma2=0, mb2=0, broot=True, vk=4, bscope=False),
-               dict(nma2=5, p1=4, s1=True, ma1=0, mb1=0, second=0, s2=False, ma2=0, mb2=0, broot=True, vk=6, bscope=True)],
-        tiers={'quick': dict(split=dict(p1=list(range(5)), second=[0, 1, 2], ma1=list(range(5))),
+        smoke=[dict(rebind=0, nma2=5, p1=0, s1=True, ma1=0, mb1=1, second=1, s2=False, ma2=2, mb2=0, broot=True, vk=3, bscope=True),
+               dict(rebind=0, nma2=5, p1=1, s1=False, ma1=1, mb1=0, second=2, s2=True, ma2=0, mb2=0, broot=True, vk=4, bscope=False),
+               dict(rebind=0, nma2=5, p1=4, s1=True, ma1=0, mb1=0, second=0, s2=False, ma2=0, mb2=0, broot=True, vk=6, bscope=True)],
+        tiers={'quick': dict(split=dict(p1=list(range(5)), second=[0, 1, 2], ma1=list(range(5)), rebind=[0, 1, 2, 3, 4]),
                              fixed=dict(mb2=0, nma2=3), budget_s=100),
                'thorough': dict(split=dict(p1=list(range(5)), second=[0, 1, 2], vk=list(range(NVK)),
-                                           ma1=list(range(5))), fixed=dict(nma2=5), budget_s=600)},
+                                           ma1=list(range(5)), rebind=[0, 1, 2, 3, 4]), fixed=dict(nma2=5), budget_s=600)},
         bounds='1-2 calls over 5 probes (plain, allow-listed, deny-listed, reference consumer, registered method), each '
                'in scope none/s with the first parameter omitted / positional / keyword / gin.REQUIRED positionally / '
                'gin.REQUIRED by keyword and the second omitted/keyword; the '
                'first parameter of the first probe bound at root with one of 9 value kinds (int, str, nested list, '
-               '@src(), %macro, %CONSTANT, non-representable object, @src, dict) and/or in scope s'),
+               '@src(), %macro, %CONSTANT, non-representable object, @src, dict) and/or in scope s; between two calls of one probe '
+               'the binding may be replaced by an equal-comparing different value (1/True, 0/False, two macros, one '
+               'configurable under two scopes)'),
 }
 RULE = 'one case per distinct (calls, bindings) tuple; non-trivial: a binding exists or there are two calls'
 SOLVER_ROLE = ('certifies coverage: the record is observed through operative_config_str(), i.e. Gin stringifies every value, so all '
